@@ -14,6 +14,8 @@ import (
 	"github.com/sdcio/cache/proto/cachepb"
 	"github.com/sdcio/data-server/pkg/cache"
 	"github.com/sdcio/data-server/pkg/config"
+	schemaClient "github.com/sdcio/data-server/pkg/datastore/clients/schema"
+	"github.com/sdcio/data-server/pkg/tree"
 	"github.com/sdcio/data-server/pkg/verifhook"
 	sdcpb "github.com/sdcio/sdc-protos/sdcpb"
 	"google.golang.org/protobuf/proto"
@@ -305,6 +307,27 @@ func (c *c17) RunCase(w *core.Worker, idx int, seed uint64, res *core.CaseResult
 		labels = append(labels, "sequential")
 	}
 	val.DisableConcurrency = false
+	// ---- the same transaction on trees built directly with the tree package (the steps of lowlevelTransactionSet, minus
+	// its debug rendering of the whole tree, which happens to decode every value before the validators start): sequential
+	// reference first, then concurrent runs on fresh trees
+	var treeRef string
+	for i := 0; i < 4 && len(res.Findings) == 0; i++ {
+		runtime.GOMAXPROCS([]int{prev, 16, 4, 2}[i])
+		v, err := c.treeValidate(run, step, i == 0)
+		if err != nil {
+			res.Inconclusive("C17/tree-mode", "%v", err)
+			break
+		}
+		res.Count("tree_validations", 1)
+		if i == 0 {
+			treeRef = v
+			continue
+		}
+		if v != treeRef {
+			res.Violate("C17/verdict-differs/tree-concurrent-vs-sequential", "tree built with the tree package, concurrent run %d differs from the sequential reference\n--- concurrent\n%s\n--- sequential\n%s\n  transaction: %s", i, v, treeRef, stepString(step))
+		}
+	}
+	runtime.GOMAXPROCS(prev)
 	res.Count("validations", len(verdicts))
 	res.Count("validate_calls", int(validateCalls.Load()))
 	res.Count("lazy_loads_during_validation", int(lazy))
@@ -361,4 +384,74 @@ func b2i(b bool) int {
 		return 1
 	}
 	return 0
+}
+
+// treeValidate builds the tree of the transaction the way lowlevelTransactionSet does (old content of the intents flagged
+// for deletion, new content, the best alternatives of the other owners, the running store) and validates it.
+func (c *c17) treeValidate(run *histRun, step []stepIntent, sequential bool) (string, error) {
+	ctx := run.ctx
+	tcc := tree.NewTreeCacheClient(run.ds.Name, c.h.env.Cache)
+	scb := schemaClient.NewSchemaClientBound(fixture.SchemaConfig().GetSchema(), c.h.env.Schema)
+	tc := tree.NewTreeContext(tcc, scb, run.ds.Name)
+	tcc.RefreshCaches(ctx)
+	root, err := tree.NewTreeRoot(ctx, tc)
+	if err != nil {
+		return "", err
+	}
+	flagNew := tree.NewUpdateInsertFlags()
+	flagNew.SetNewFlag()
+	involved := tree.NewPathSet()
+	var names []string
+	for _, si := range step {
+		ti, err := run.ds.SdcpbTransactionIntentToInternalTI(ctx, si.req())
+		if err != nil {
+			return "", err
+		}
+		tc.SetActualOwner(ti.GetName())
+		names = append(names, ti.GetName())
+		old, err := root.LoadIntendedStoreOwnerData(ctx, ti.GetName(), false)
+		if err != nil {
+			return "", err
+		}
+		if err := root.AddCacheUpdatesRecursive(ctx, ti.GetUpdates(), flagNew); err != nil {
+			return "", err
+		}
+		involved.Join(old.ToPathSet())
+		involved.Join(ti.GetUpdates().ToPathSet())
+	}
+	for _, e := range tcc.ReadCurrentUpdatesHighestPriorities(ctx, involved.GetPaths(), uint64(len(names)+1)) {
+		skip := false
+		for _, n := range names {
+			if e.Owner() == n {
+				skip = true
+			}
+		}
+		if skip {
+			continue
+		}
+		if _, err := root.AddCacheUpdateRecursive(ctx, e, tree.NewUpdateInsertFlags()); err != nil {
+			return "", err
+		}
+	}
+	upds, err := tcc.ReadRunningFull(ctx)
+	if err != nil {
+		return "", err
+	}
+	for _, u := range upds {
+		nu := cache.NewUpdate(u.GetPath(), u.Bytes(), tree.RunningValuesPrio, tree.RunningIntentName, 0)
+		if _, err := root.AddCacheUpdateRecursive(ctx, nu, tree.NewUpdateInsertFlags()); err != nil {
+			return "", err
+		}
+	}
+	root.FinishInsertionPhase(ctx)
+	vr := root.Validate(ctx, &config.Validation{DisableConcurrency: sequential})
+	var l []string
+	for _, e := range vr.ErrorsStr() {
+		l = append(l, "E "+e)
+	}
+	for _, e := range vr.WarningsStr() {
+		l = append(l, "W "+e)
+	}
+	sort.Strings(l)
+	return c17Addr.ReplaceAllString(strings.Join(l, "\n"), "ADDR"), nil
 }
